@@ -38,6 +38,7 @@ let str_ret = function
   | RNode nn -> "N " ^ string_of_n nn
   | RGuard (p, _) -> "G " ^ string_of_n p
   | ROwned p -> "O " ^ string_of_n p
+  | RPanic -> "P"
 let str_panic = function
   | PExpectNode -> "ExpectNode" | PSlotNotNone -> "SlotNotNone" | PCtrlNotIdle -> "CtrlNotIdle"
   | POwnCtrlNotIdle -> "OwnCtrlNotIdle" | PInUseNotUsed -> "InUseNotUsed" | PHelpMyself -> "HelpMyself"
@@ -76,7 +77,10 @@ let parse_cmd (s : string) : cmd =
   | ["swap"; c; v; h2] -> CSwap (n_of_string c, src_of v, n_of_string h2)
   | ["cas"; c; cur; nw; h2] -> CCas (n_of_string c, src_of cur, src_of nw, n_of_string h2)
   | ["rcu"; c; m; h2] ->
-      let m = (match m with "new" -> RcuNew | "null" -> RcuNull | "same" -> RcuSame | _ -> failwith "rcu mode") in
+      let m = (match m with "new" -> RcuNew | "null" -> RcuNull | "same" -> RcuSame
+                 | _ when String.length m > 5 && String.sub m 0 5 = "panic" ->
+                     RcuPanicAt (n_of_string (String.sub m 5 (String.length m - 5)))
+                 | _ -> failwith "rcu mode") in
       CRcu (n_of_string c, m, n_of_string h2)
   | ["cinto"; c; h] -> CIntoInner (n_of_string c, n_of_string h)
   | ["cdrop"; c] -> CDropStore (n_of_string c)
